@@ -13,6 +13,7 @@ import (
 	"github.com/notaryproject/notation-core-go/signature"
 	"github.com/notaryproject/notation-go"
 	"github.com/notaryproject/notation-go/dir"
+	"github.com/notaryproject/notation-go/plugin"
 	"github.com/notaryproject/notation-go/verifier"
 	"github.com/notaryproject/notation-go/verifier/trustpolicy"
 	"github.com/notaryproject/notation-go/verifier/truststore"
@@ -36,7 +37,7 @@ func (c03) Rule() string {
 func (c03) Components() map[string]string {
 	return map[string]string{
 		"verifier.Verify, loadX509TrustStores(WithType), verifyAuthenticity": "real",
-		"truststore.x509TrustStore over the simulated disk":                 "real, wrapped by a call recorder",
+		"truststore.x509TrustStore over the simulated disk":                  "real, wrapped by a call recorder",
 		"os":              "simos shim over tmpfs (I/O faults on Lstat / ReadDir of store loads)",
 		"revocation":      "skipped by level; identities wildcard; times valid",
 		"reference model": "current directory tree -> trusted set of the applicable statement's stores of the required type (C13 reading rules)",
@@ -52,6 +53,8 @@ func (c03) Gen(r *rand.Rand, tier string, idx int) *core.Plan {
 	w["chain"] = int64(r.IntN(4)) // 0 self-signed leaf; 1..3 = 0..2 intermediates
 	w["statements"] = int64(1 + r.IntN(3))
 	w["hasScoped"] = int64(r.IntN(2))
+	w["plugin"] = int64(r.IntN(3) / 2)
+	w["authLogged"] = int64(r.IntN(3) / 2)
 	// per statement: a list of store indexes (type*3+name), with duplicates
 	for s := int64(0); s < 3; s++ {
 		n := 1 + r.IntN(4)
@@ -135,13 +138,18 @@ func (l c03) Exec(env *core.Env) *core.Result {
 	if w["hasScoped"] == 0 {
 		scopes[0] = []string{"registry.example/elsewhere"}
 	}
+	// the actions of the other validation types are fixed; authenticity itself is enforced or only logged
+	c03Override := map[string]string{"revocation": "skip", "authenticTimestamp": "log", "expiry": "log"}
+	if w["authLogged"] == 1 {
+		c03Override["authenticity"] = "log"
+	}
 	applicable := -1
 	for s := 0; s < nst; s++ {
 		sc := scopes[s]
 		if nst < 3 && s == nst-1 {
 			sc = scopes[2] // the last statement is the wildcard one
 		}
-		sts = append(sts, world.Statement(fmt.Sprintf("st%d", s), "strict", map[string]string{"revocation": "skip", "authenticTimestamp": "log", "expiry": "log"},
+		sts = append(sts, world.Statement(fmt.Sprintf("st%d", s), "strict", c03Override,
 			c03Stores(w[fmt.Sprintf("stores%d", s)]), []string{"*"}, sc))
 		if sc[0] == "registry.example/app" {
 			applicable = s
@@ -154,10 +162,17 @@ func (l c03) Exec(env *core.Env) *core.Result {
 	// the blob document holds the same statements (addressed by name; the last one is the global statement)
 	var bsts []trustpolicy.BlobTrustPolicy
 	for i, st := range sts {
-		bsts = append(bsts, world.BlobStatement(st.Name, "strict", map[string]string{"revocation": "skip", "authenticTimestamp": "log", "expiry": "log"}, st.TrustStores, []string{"*"}, i == len(sts)-1))
+		bsts = append(bsts, world.BlobStatement(st.Name, "strict", c03Override, st.TrustStores, []string{"*"}, i == len(sts)-1))
 	}
 	bdoc := world.BlobDoc(bsts...)
 
+	// in a share of the runs the signatures name a verification plugin that owns trusted identity and says
+	// "success": that confers no trust - only a certificate held in a listed store of the right type does
+	var c03Manager plugin.Manager
+	if w["plugin"] == 1 {
+		sm, _ := identityOnlyPlugin()
+		c03Manager = sm
+	}
 	var task *rt.Task
 	var trace []map[string]any
 	sim := core.NewSim(env, nil, 6000)
@@ -165,7 +180,7 @@ func (l c03) Exec(env *core.Env) *core.Result {
 	task = sim.Go("operator+verifier", func() {
 		ctx := context.Background()
 		rec := &world.RecordingStore{Inner: truststore.NewX509TrustStore(dir.NewSysFS(root))}
-		v, err := verifier.NewVerifierWithOptions(rec, verifier.VerifierOptions{OCITrustPolicy: doc, BlobTrustPolicy: bdoc})
+		v, err := verifier.NewVerifierWithOptions(rec, verifier.VerifierOptions{OCITrustPolicy: doc, BlobTrustPolicy: bdoc, PluginManager: c03Manager})
 		if err != nil {
 			res.Violate("HARNESS/verifier", "", "%v (stores %v)", err, sts)
 			return
@@ -211,7 +226,11 @@ func (l c03) Exec(env *core.Env) *core.Result {
 				format := world.Formats[op.Int(1)%2]
 				sk := string(scheme) + format
 				if sigs[sk] == nil {
-					b, err := world.SignPayload(chain, world.PayloadFor(desc), world.SignOpts{MediaType: format, Scheme: scheme})
+					so := world.SignOpts{MediaType: format, Scheme: scheme}
+					if w["plugin"] == 1 {
+						so.ExtAttrs = append(so.ExtAttrs, idPluginAttr())
+					}
+					b, err := world.SignPayload(chain, world.PayloadFor(desc), so)
 					if err != nil {
 						res.Violate("HARNESS/sign", "", "%v", err)
 						return
@@ -279,7 +298,7 @@ func (l c03) Exec(env *core.Env) *core.Result {
 					}
 				}
 				passed := auth != nil && auth.Error == nil
-				key := fmt.Sprintf("entry=%d scheme=%s applicable=st%d%v listed-%s=%v anchored=%v broken=%q", op.Int(2), required, applicable, sts[applicable].TrustStores, required, world.SortedKeys(listed), anchored, broken)
+				key := fmt.Sprintf("plugin=%d authenticity-logged=%d entry=%d scheme=%s applicable=st%d%v listed-%s=%v anchored=%v broken=%q", w["plugin"], w["authLogged"], op.Int(2), required, applicable, sts[applicable].TrustStores, required, world.SortedKeys(listed), anchored, broken)
 				trace = append(trace, map[string]any{"verify": key, "authenticity_passed": passed, "calls": fmt.Sprint(rec.Log), "err": fmt.Sprint(verr)})
 				sim.Abstract(fmt.Sprint(key, passed, rec.Log))
 				if passed {
@@ -312,7 +331,7 @@ func (l c03) Exec(env *core.Env) *core.Result {
 						}
 					}
 				}
-				if !passed && verr == nil {
+				if !passed && verr == nil && w["authLogged"] == 0 {
 					res.Violate("C03/accepted-although-not-authentic", key, "authenticity failed under enforce but verification succeeded")
 				}
 				for _, c := range rec.Log {
